@@ -185,3 +185,283 @@ func init() {
 		Witnesses: []string{"match", "nomatch", "match-after-skip", "end"},
 	})
 }
+
+// ---------------------------------------------------------------- C05, C07, C13, C18, C20
+
+func optLetters(o int) string {
+	s := ""
+	for _, x := range []struct {
+		bit int
+		c   string
+	}{{patterns.OptI, "i"}, {patterns.OptM, "m"}, {patterns.OptS, "s"}, {patterns.OptN, "n"}, {patterns.OptX, "x"}} {
+		if o&x.bit != 0 {
+			s += x.c
+		}
+	}
+	return s
+}
+
+var inlineSubsets = func() []int {
+	var out []int
+	bits := []int{patterns.OptI, patterns.OptM, patterns.OptS, patterns.OptN, patterns.OptX}
+	for m := 0; m < 32; m++ {
+		o := 0
+		for i, b := range bits {
+			if m&(1<<i) != 0 {
+				o |= b
+			}
+		}
+		out = append(out, o)
+	}
+	return out
+}()
+
+func flipCase(r rune) rune {
+	switch {
+	case r >= 'a' && r <= 'z':
+		return r - 32
+	case r >= 'A' && r <= 'Z':
+		return r + 32
+	case r >= 0x3b1 && r <= 0x3c9 && r != 0x3c2: // Greek small (not final sigma)
+		return r - 32
+	case r >= 0x391 && r <= 0x3a9 && r != 0x3a2:
+		return r + 32
+	case r >= 0x430 && r <= 0x44f: // Cyrillic
+		return r - 32
+	case r >= 0x410 && r <= 0x42f:
+		return r + 32
+	case r >= 0xe0 && r <= 0xfe && r != 0xf7: // Latin-1
+		return r - 32
+	case r >= 0xc0 && r <= 0xde && r != 0xd7:
+		return r + 32
+	}
+	return r
+}
+
+// flippedVariants returns pattern texts with the case of up to two literal
+// letters / range end-points flipped (printed from the AST).
+func flippedVariants(text string, options int, max int) (base string, variants []string) {
+	a, _, err := patterns.Parse(text, options)
+	if err != nil {
+		return "", nil
+	}
+	base = a.Print(false)
+	// collect flippable sites
+	type site struct {
+		n    *patterns.Node
+		item int // -1: literal; else index of range item; end 0/1 encoded in hi
+		hi   bool
+	}
+	var sites []site
+	a.Walk(func(n *patterns.Node) {
+		if n.K == patterns.Lit && flipCase(n.Ch) != n.Ch {
+			sites = append(sites, site{n, -1, false})
+		}
+		if n.K == patterns.Class {
+			for i, it := range n.Items {
+				if it.Cat == "" && it.Lo == it.Hi && flipCase(it.Lo) != it.Lo {
+					sites = append(sites, site{n, i, false})
+				}
+			}
+		}
+	})
+	apply := func(s site) {
+		if s.item < 0 {
+			s.n.Ch = flipCase(s.n.Ch)
+		} else {
+			c := flipCase(s.n.Items[s.item].Lo)
+			s.n.Items[s.item].Lo, s.n.Items[s.item].Hi = c, c
+		}
+	}
+	seen := map[string]bool{base: true}
+	for i := range sites {
+		apply(sites[i])
+		if t := a.Print(false); !seen[t] {
+			seen[t] = true
+			variants = append(variants, t)
+		}
+		for j := i + 1; j < len(sites) && len(variants) < max; j++ {
+			apply(sites[j])
+			if t := a.Print(false); !seen[t] {
+				seen[t] = true
+				variants = append(variants, t)
+			}
+			apply(sites[j])
+		}
+		apply(sites[i])
+		if len(variants) >= max {
+			break
+		}
+	}
+	return base, variants
+}
+
+func init() {
+	register(&propSpec{
+		ID: "C05",
+		Build: func(tier string, seed int) []Unit {
+			ps := dedup(append(patterns.ShapesOf("autoatomic", "endbacktrack", "alternation", "coalesce", "bumpalong", "opcodes", "landmark", "case"), enumPats(tier, seed)...))
+			maxN := 4
+			sets := []int{0, patterns.OptI, patterns.OptM, patterns.OptS, patterns.OptRE2}
+			if tier == "thorough" {
+				maxN = 5
+			}
+			var us []Unit
+			for i, p := range ps {
+				for k, o := range sets {
+					if tier != "thorough" && k != 0 && k != 1+(i+seed)%4 {
+						continue
+					}
+					us = append(us, unitsFor("C05", "rewrite", p, o, "", maxN, nil, false)...)
+				}
+			}
+			return us
+		},
+		Rule:      "For each (pattern, options, n): the pattern is compiled twice inside the interpreter, once as is and once with the rewrite passes (auto-atomic loops, ending-backtracking removal, final optimisation incl. bump-along, alternation prefix factoring and branch reordering) intercepted; n symbolic runes and a symbolic start offset; every feasible path of a scan of both programs is explored and the snapshots asserted equal. Units whose two programs are identical are counted as trivial.",
+		Witnesses: []string{"programs-differ", "match", "nomatch", "end"},
+		Assumptions: []string{"interception set norewrite = {findAndMakeLoopsAtomic, eliminateEndingBacktracking -> no-op; finalOptimize, extractCommonPrefixText, extractCommonPrefixOneNotoneSet -> identity; findBranchOneOrMultiStart -> nil}; other reductions are covered by C01, not here"},
+	})
+	register(&propSpec{
+		ID: "C07",
+		Build: func(tier string, seed int) []Unit {
+			ps := dedup(append(patterns.ShapesOf("zerowidth", "anchors", "opcodes", "bumpalong", "classes"), enumPats(tier, seed)...))
+			maxN := 4
+			if tier == "thorough" {
+				maxN = 5
+			}
+			var us []Unit
+			for i, p := range ps {
+				us = append(us, unitsFor("C07", "iter", p, 0, "", maxN, nil, false)...)
+				if tier == "thorough" || (i+seed)%2 == 0 {
+					us = append(us, unitsFor("C07", "iter", p, patterns.OptRTL, "", maxN, nil, false)...)
+				}
+			}
+			return us
+		},
+		Rule:      "For each (pattern, direction, n): n symbolic runes; FindRunesMatch + FindNextMatch are iterated to exhaustion on every feasible path; order, disjointness, no repeated empty match, at most n+1 matches, equality of each match with an independent naive scan from the previous end (\\G origin = that end), and FindAllRunesIndex(t,k) for k in -1..3 against the filtered sequence are asserted.",
+		Witnesses: []string{"some-match", "several-matches", "end"},
+	})
+	register(&propSpec{
+		ID: "C13",
+		Build: func(tier string, seed int) []Unit {
+			ps := dedup(append(patterns.ShapesOf("stacklimit", "opcodes", "alternation"), patterns.ShapesOf("zerowidth")...))
+			maxN, lmax := 2, 72
+			ldom, l2dom := "0-34,62-66,100", "1-40,63-70,128,100000"
+			if tier == "thorough" {
+				maxN, lmax = 3, 140
+				ldom, l2dom = "0-140,1000", "1-150,2000,100000"
+				ps = dedup(append(ps, enumPats("quick", seed)...))
+			}
+			var us []Unit
+			for _, p := range ps {
+				us = append(us, unitsFor("C13", "limit", p, 0, "", maxN, map[string]string{"lmax": itoa(lmax), "ldom": ldom, "l2dom": l2dom}, false)...)
+			}
+			return us
+		},
+		Rule:      "For each (pattern, n): n symbolic runes and the limit L (and a second L2 > L) as 64-bit solver variables in [0, lmax]; all feasible paths: result with limit L is ErrBacktrackingStackLimit or equals the unlimited result; pooled stack capacity <= L; no Go panic; the Regexp gives the reference result afterwards; success at L implies the same success at L2.",
+		Witnesses: []string{"limit-hit", "within-limit", "end"},
+		Bounds: func(tier string) map[string]any {
+			if tier == "thorough" {
+				return map[string]any{"text_runes_max": 4, "L": "[0,140]"}
+			}
+			return map[string]any{"text_runes_max": 3, "L": "[0,72]"}
+		},
+	})
+	register(&propSpec{
+		ID: "C18",
+		Build: func(tier string, seed int) []Unit {
+			ps := dedup(append(patterns.ShapesOf("anchors", "classes", "case", "groups", "opcodes", "alternation"), enumPats(tier, seed)...))
+			maxN := 3
+			per := 3
+			if tier == "thorough" {
+				maxN, per = 4, 32
+			}
+			var us []Unit
+			for i, p := range ps {
+				a0, _, err := patterns.Parse(p.Text, 0)
+				if err != nil {
+					continue
+				}
+				for k := 0; k < per; k++ {
+					o := inlineSubsets[(i*7+k*11+seed)%32]
+					if per == 32 {
+						o = inlineSubsets[k]
+					}
+					if o == 0 {
+						continue
+					}
+					body := p.Text
+					if o&patterns.OptX != 0 {
+						body = a0.Print(true)
+					}
+					ast, ng, err := patterns.Parse(body, o)
+					if err != nil || !ast.InFragmentC01() {
+						continue
+					}
+					letters := optLetters(o)
+					extra := map[string]string{"pattern_inline": "(?" + letters + ")" + body, "pattern_wrap": "(?" + letters + ":" + body + ")", "options_rest": "0",
+						"ast": ast.Sexpr(), "ngroups": itoa(ng)}
+					anyi := "0"
+					if o&patterns.OptI != 0 {
+						anyi = "1"
+					}
+					extra["anyi"] = anyi
+					for n := 0; n <= maxN; n++ {
+						params := map[string]string{"pattern": body, "options": itoa(o), "copts": "", "n": itoa(n)}
+						for kk, v := range extra {
+							params[kk] = v
+						}
+						us = append(us, Unit{ID: fmt.Sprintf("C18/%s/o%d/n%d", body, o, n), Harness: "spell", Params: params})
+					}
+				}
+			}
+			// nested on/off groups against the reference scoping
+			for _, p := range patterns.ShapesOf("options") {
+				ast, ng, err := patterns.Parse(p.Text, 0)
+				if err != nil {
+					continue
+				}
+				for n := 0; n <= maxN; n++ {
+					us = append(us, Unit{ID: fmt.Sprintf("C18/%s/nested/n%d", p.Text, n), Harness: "spell", Params: map[string]string{"pattern": p.Text, "pattern_inline": p.Text, "pattern_wrap": p.Text,
+						"options": "0", "options_rest": "0", "copts": "", "n": itoa(n), "ast": ast.Sexpr(), "ngroups": itoa(ng), "anyi": "1"}})
+				}
+			}
+			return us
+		},
+		Rule:      "For each (pattern, option subset O of {i,m,s,n,x}, n): the pattern compiled with O as compile option, as leading (?O) and as wrapping (?O:...) (three real compiles inside the interpreter); n symbolic runes; all feasible paths; the three snapshots are asserted equal and equal to the reference matcher run on the independent parse with O applied (option scoping incl. nested (?O)...(?-O)).",
+		Witnesses: []string{"match", "nomatch", "spec-leg", "end"},
+	})
+	register(&propSpec{
+		ID: "C20",
+		Build: func(tier string, seed int) []Unit {
+			ps := dedup(append(patterns.ShapesOf("case", "findmode-prefix", "findmode-set", "classes", "alternation", "autoatomic", "opcodes"), enumPats(tier, seed)...))
+			maxN, maxVar := 3, 2
+			if tier == "thorough" {
+				maxN, maxVar = 4, 6
+			}
+			var us []Unit
+			for _, p := range ps {
+				base, vars := flippedVariants(p.Text, patterns.OptI, maxVar)
+				if base == "" {
+					continue
+				}
+				if len(vars) == 0 {
+					vars = []string{""}
+				}
+				for _, v := range vars {
+					for n := 0; n <= maxN; n++ {
+						dom := "case"
+						if tier == "thorough" {
+							dom = "quick"
+						}
+						us = append(us, Unit{ID: fmt.Sprintf("C20/%s/%s/n%d", base, v, n), Harness: "icase", Domain: dom, Params: map[string]string{"pattern": base, "pattern_flipped": v,
+							"options": itoa(patterns.OptI), "copts": "", "n": itoa(n), "key_extra": v}})
+					}
+				}
+			}
+			return us
+		},
+		Rule:      "For each (IgnoreCase pattern, pattern variant with up to two literal letters / class members case-flipped, n): n symbolic runes restricted to caseless runes and plain upper/lower pairs, plus a symbolic flip vector f in {0,1}^n with t'[i] = f[i] ? partner(t[i]) : t[i]; all feasible paths; match position and length on t, on t' and for the flipped pattern on t are asserted equal.",
+		Witnesses: []string{"match", "nomatch", "end"},
+	})
+}
